@@ -424,7 +424,7 @@ pub fn run(cfg: &Cfg, rep: &mut Report) {
       }
     }
   }
-  let total = cfg.n(120_000, 40_000_000);
+  let total = cfg.n(500_000, 40_000_000);
   let maxi = cfg.n(4, 6);
   let mut rng = Rng::new(cfg.seed ^ 0xC14);
   for i in 0..total {
